@@ -49,6 +49,7 @@ type c16Flags struct {
 	Legal                                                         int
 	Tsconfig                                                      string
 	Drop                                                          bool
+	Engine                                                        int // 0 = none; otherwise an old browser engine (activates lowering by engine tables)
 }
 
 func c16RandomFlags(rng *Rng) c16Flags {
@@ -71,6 +72,9 @@ func c16RandomFlags(rng *Rng) c16Flags {
 	f.Legal = rng.Intn(5)
 	f.TreeShake = rng.Intn(4) == 0
 	f.Drop = rng.Intn(8) == 0
+	if rng.Intn(4) == 0 {
+		f.Engine = 1 + rng.Intn(6)
+	}
 	if rng.Intn(5) == 0 {
 		f.Tsconfig = []string{`{"compilerOptions":{"useDefineForClassFields":false,"experimentalDecorators":true}}`, `{"compilerOptions":{"jsx":"react-jsx","jsxImportSource":"p"}}`,
 			`{"compilerOptions":{"target":"es5","verbatimModuleSyntax":true}}`, `{"compilerOptions":{"alwaysStrict":true,"importsNotUsedAsValues":"preserve"}}`, `{"compilerOptions":{"paths":{"*":["./x/*"]},"baseUrl":"."}}`, `{bad`}[rng.Intn(6)]
@@ -101,6 +105,11 @@ func (f c16Flags) transform(loader api.Loader) api.TransformOptions {
 		o.DropLabels = []string{"DEV"}
 		o.Define = map[string]string{"process.env.NODE_ENV": "\"production\"", "DEBUG": "false"}
 		o.Pure = []string{"pureFn"}
+	}
+	if f.Engine > 0 {
+		o.Target = api.DefaultTarget
+		o.Engines = [][]api.Engine{{{Name: api.EngineChrome, Version: "30"}}, {{Name: api.EngineSafari, Version: "9"}}, {{Name: api.EngineFirefox, Version: "40"}}, {{Name: api.EngineIE, Version: "11"}},
+			{{Name: api.EngineEdge, Version: "16"}, {Name: api.EngineIOS, Version: "10"}}, {{Name: api.EngineChrome, Version: "118"}, {Name: api.EngineNode, Version: "12"}}}[(f.Engine-1)%6]
 	}
 	if o.Format == api.FormatIIFE && f.Legal == 1 {
 		o.GlobalName = "a.b['c']"
@@ -181,6 +190,9 @@ func c16MakeCase(seed uint64, idx int) c16Case {
 			`{"version":3,"sources":["a"],"names":["x"],"mappings":"AAAAA,` + strings.Repeat("g", rng.Intn(40)) + `"}`, mutateBytes(rng, `{"version":3,"sources":["a.js","b.js"],"sourcesContent":[null,"x"],"mappings":"AAAA;ACAA","names":[]}`),
 			`{"version":3,"sections":[{"offset":{"line":0,"column":0},"map":{"version":3,"sources":["a"],"mappings":"AAAA"}}]}`, `[]`, `null`, `{"version":3,"sources":[1,2],"mappings":5}`, `{"version":3,"sources":["a"],"mappings":"` + strings.Repeat(";", 70000) + `"}`}
 		pl := payloads[rng.Intn(len(payloads))]
+		if rng.Intn(2) == 0 {
+			pl = structuredSourceMap(rng)
+		}
 		url := "data:application/json;base64," + base64.StdEncoding.EncodeToString([]byte(pl))
 		if rng.Intn(3) == 0 {
 			url = "data:application/json," + pl
@@ -228,6 +240,28 @@ func c16MakeCase(seed uint64, idx int) c16Case {
 		c.Entry = t.Entry
 		c.Flags.Bundle = true
 		c.Flags.Splitting = rng.Intn(4) == 0
+	case k == 18 && rng.Intn(5) == 0:
+		c.Kind = "bundle-package-grammar"
+		t := pkgGenMode(rng, true)
+		c.Files = t.Files
+		var imports strings.Builder
+		seen := map[string]bool{}
+		for n := 0; n < 40 && n < len(t.Queries); n++ {
+			q := t.Queries[rng.Intn(len(t.Queries))]
+			if q.Importer != "/app/src/importer.js" || seen[q.Spec] {
+				continue
+			}
+			seen[q.Spec] = true
+			if q.Kind == "import" {
+				imports.WriteString(fmt.Sprintf("import %q;\n", q.Spec))
+			} else {
+				imports.WriteString(fmt.Sprintf("require(%q);\n", q.Spec))
+			}
+		}
+		c.Files["/app/src/entry.js"] = imports.String()
+		c.Entry = []string{"/app/src/entry.js"}
+		c.Flags.Bundle = true
+		c.Loader = "js"
 	default:
 		c.Kind = "bundle-config-mutant"
 		pj := []string{`{"name":"p","main":"./m.js","exports":{".":{"import":"./m.mjs","default":"./m.js"},"./x/*":"./y/*.js"},"imports":{"#i":"./m.js"},"sideEffects":false,"browser":{"./m.js":"./b.js","fs":false},"type":"module"}`,
@@ -254,6 +288,64 @@ func c16MakeCase(seed uint64, idx int) c16Case {
 		c.Input = c.Input[:1<<16]
 	}
 	return c
+}
+
+const vlqChars = "ABCDEFGHIJKLMNOPQRSTUVWXYZabcdefghijklmnopqrstuvwxyz0123456789+/"
+
+func vlq(n int) string {
+	v := n << 1
+	if n < 0 {
+		v = (-n << 1) | 1
+	}
+	out := ""
+	for {
+		d := v & 31
+		v >>= 5
+		if v > 0 {
+			d |= 32
+		}
+		out += string(vlqChars[d])
+		if v == 0 {
+			return out
+		}
+	}
+}
+
+// structuredSourceMap: a syntactically valid map whose indices sit on and around every boundary
+func structuredSourceMap(rng *Rng) string {
+	ns, nn := rng.Intn(3), rng.Intn(3)
+	var sources, names []string
+	for i := 0; i < ns; i++ {
+		sources = append(sources, fmt.Sprintf("%q", fmt.Sprint("s", i, ".js")))
+	}
+	for i := 0; i < nn; i++ {
+		names = append(names, fmt.Sprintf("%q", fmt.Sprint("n", i)))
+	}
+	pick := func(n int) int { return []int{0, n - 1, n, n + 1, -1, 1 << 20}[rng.Intn(6)] }
+	var segs []string
+	prevSrc, prevName := 0, 0
+	for k := 0; k < 1+rng.Intn(4); k++ {
+		src, name := pick(ns), pick(nn)
+		seg := vlq([]int{0, 1, 7, -1}[rng.Intn(4)]) + vlq(src-prevSrc) + vlq([]int{0, 1, -1, 1 << 20}[rng.Intn(4)]) + vlq([]int{0, 3, -1, 1 << 20}[rng.Intn(4)])
+		prevSrc = src
+		if rng.Intn(2) == 0 {
+			seg += vlq(name - prevName)
+			prevName = name
+		}
+		if rng.Intn(8) == 0 {
+			seg = seg[:len(seg)-1]
+		}
+		segs = append(segs, seg)
+	}
+	sep := []string{",", ";", ";;", ","}[rng.Intn(4)]
+	extra := ""
+	if rng.Intn(3) == 0 {
+		extra = `,"sourcesContent":[null,"x",1]`
+	}
+	if rng.Intn(4) == 0 {
+		extra += `,"sourceRoot":"/r/"`
+	}
+	return `{"version":3,"sources":[` + strings.Join(sources, ",") + `],"names":[` + strings.Join(names, ",") + `],"mappings":"` + strings.Join(segs, sep) + `"` + extra + `}`
 }
 
 func c16MaxDepth(loader string) int {
@@ -333,13 +425,24 @@ func c16Run(c c16Case, scratch string) (marker string) {
 	opts := api.BuildOptions{EntryPoints: c.Entry, Bundle: true, Write: false, Outdir: "/out", LogLevel: api.LogLevelSilent,
 		MinifyWhitespace: t.MinifyWhitespace, MinifySyntax: t.MinifySyntax, MinifyIdentifiers: t.MinifyIdentifiers, KeepNames: t.KeepNames, Target: t.Target,
 		Format: t.Format, Sourcemap: t.Sourcemap, Charset: t.Charset, Platform: t.Platform, LineLimit: t.LineLimit, LegalComments: t.LegalComments,
-		TreeShaking: t.TreeShaking, Metafile: true, MangleProps: t.MangleProps, Drop: t.Drop, Define: t.Define, JSX: t.JSX,
+		TreeShaking: t.TreeShaking, Metafile: true, Engines: t.Engines, MangleProps: t.MangleProps, Drop: t.Drop, Define: t.Define, JSX: t.JSX,
 		Loader: map[string]api.Loader{".png": api.LoaderDataURL, ".txt": api.LoaderText, ".file": api.LoaderFile, ".bin": api.LoaderBinary, ".b64": api.LoaderBase64, ".copy": api.LoaderCopy}}
 	if f.Splitting {
 		opts.Splitting = true
 		opts.Format = api.FormatESModule
 	}
-	if c.Kind == "bundle-config-mutant" {
+	if c.Kind == "bundle-package-grammar" {
+		dir := filepath.Join(scratch, fmt.Sprint("pkg", c.Idx))
+		for p, s := range c.Files {
+			full := filepath.Join(dir, p)
+			os.MkdirAll(filepath.Dir(full), 0o755)
+			os.WriteFile(full, []byte(s), 0o644)
+		}
+		defer os.RemoveAll(dir)
+		opts.AbsWorkingDir = dir
+		opts.EntryPoints = []string{filepath.Join(dir, "app/src/entry.js")}
+		opts.Outdir = filepath.Join(dir, "out")
+	} else if c.Kind == "bundle-config-mutant" {
 		dir := filepath.Join(scratch, fmt.Sprint("cfg", c.Idx))
 		for p, s := range c.Files {
 			full := filepath.Join(dir, p)
